@@ -191,28 +191,6 @@ A state is *reachable* when some history of requests leads to it from the
 initial heap; a history is rejected only when it passes a pointer that is not
 the payload of a live block to free/realloc (`heap_valid_requests_never_fault`). -/
 
-def Reach (cfg : Cfg) (h : Heap) : Prop := ∃ ops, run cfg Heap.init ops = some h
-
-theorem Reach.inv {cfg : Cfg} {h : Heap} (ok : CfgOK cfg) (hr : Reach cfg h) : HInv cfg h := by
-  obtain ⟨ops, hr⟩ := hr
-  exact run_inv cfg ok ops _ _ (HInv.init cfg) hr
-
-theorem Reach.step {cfg : Cfg} {h : Heap} {op : Op} {r : Res} (hr : Reach cfg h)
-    (hs : step cfg h op = some r) : Reach cfg r.h := by
-  obtain ⟨ops, hr⟩ := hr
-  refine ⟨ops ++ [op], ?_⟩
-  have : ∀ (ops : List Op) (h0 : Heap), run cfg h0 ops = some h → run cfg h0 (ops ++ [op]) = some r.h := by
-    intro ops
-    induction ops with
-    | nil => intro h0 h1; simp only [run] at h1; cases h1; simp [run, hs]
-    | cons o os ih =>
-      intro h0 h1
-      simp only [run, List.cons_append] at h1 ⊢
-      split at h1
-      · cases h1
-      · rename_i r1 hs1; exact ih _ h1
-  exact this ops _ hr
-
 /-- the heap invariant, in readable form -/
 structure HeapOK (cfg : Cfg) (h : Heap) : Prop where
   /-- no two chunks (free or live, headers included) share a byte -/
@@ -318,6 +296,31 @@ theorem heap_contents_untouched (cfg : Cfg) (ok : CfgOK cfg) (h : Heap) (op : Op
     c ∈ r.h.live ∧ ∀ x, c.1 ≤ x → x < c.1 + 8 + c.2 → m' x = m x :=
   ⟨step_keeps_others cfg ok h op r (hr.inv ok) hs c hc hne,
     Exec.frame hx fun e he => step_evs_avoid cfg ok h op r (hr.inv ok) hs e he c hc hne⟩
+
+/-- … and over a whole history: as long as no request frees or reallocates the
+block, it stays live with the same size and every byte of it (header and
+payload) keeps its value, whatever the other requests are. -/
+theorem heap_contents_untouched_until_freed (cfg : Cfg) (ok : CfgOK cfg) (ops : List Op) (h h' : Heap)
+    (evs : List Ev) (hr : Reach cfg h) (hs : runE cfg h ops = some (h', evs)) (c : Chunk) (hc : c ∈ h.live)
+    (hne : ∀ op ∈ ops, op.target ≠ some (c.1 + 8)) (m m' : Mem) (hx : Exec m evs m') :
+    c ∈ h'.live ∧ ∀ x, c.1 ≤ x → x < c.1 + 8 + c.2 → m' x = m x := by
+  induction ops generalizing h m evs with
+  | nil => simp only [runE, Option.some.injEq, Prod.mk.injEq] at hs; obtain ⟨rfl, rfl⟩ := hs
+           simp only [Exec] at hx; subst hx; exact ⟨hc, fun _ _ _ => rfl⟩
+  | cons op ops ih =>
+    simp only [runE] at hs
+    split at hs
+    · cases hs
+    · rename_i r hst
+      split at hs
+      · cases hs
+      · rename_i x hx2
+        simp only [Option.some.injEq, Prod.mk.injEq] at hs
+        obtain ⟨rfl, rfl⟩ := hs
+        obtain ⟨m1, ha, hb⟩ := Exec.append hx
+        have h1 := heap_contents_untouched cfg ok h op r hr hst c hc (hne op (by simp)) m m1 ha
+        have h2 := ih r.h x.2 (hr.step hst) (by rw [hx2]) h1.1 (fun o ho => hne o (by simp [ho])) m1 hb
+        exact ⟨h2.1, fun y hy1 hy2 => by rw [h2.2 y hy1 hy2, h1.2 y hy1 hy2]⟩
 
 /-- realloc preserves the common prefix: in every resulting memory the first
 `min(old size, request)` bytes of the returned block equal the old payload -/
